@@ -47,6 +47,9 @@ def cfg(maxlen, guard, emit):
 
 
 def run(ctx):
+    # 0. beyond the property: the experimental import hook as a state machine (drift only, never an alarm)
+    from .. import importhook
+    importhook.run(ctx, sample=200 if ctx.quick else None)
     # 1. design model: all histories, unbounded (VIEW without the history variable); pinned code must be refuted
     r = tlc.run("Hooks", cfg(200, "TRUE", "VIEW View\n"), workers=4, timeout=900)
     ctx.add_tlc("design:Hooks:unbounded", r)
